@@ -576,6 +576,9 @@ def replay_model(ob, model, rng, hyps, goal):
                 if lo is not None:
                     x = min(max(x, lo), hi)
                 env[nm] = x
+            elif isinstance(v, int) and not isinstance(v, bool) and any(nm in e.domain for e in ob.encs):
+                lo, hi = next(e.domain[nm] for e in ob.encs if nm in e.domain)
+                env[nm] = int(rng.integers(int(lo), int(hi) + 1)) if k > 0 else v       # integers (times, indices) are varied inside their stated domain
             else:
                 env[nm] = v
         tries.append(env)
